@@ -11,6 +11,7 @@ import minthist
 import proofgate
 import tables
 import wallethist
+import wcrash
 from core import tier, write_evidence
 
 ASSUME = ["SQLite gives per-call atomicity (a crash or a context switch happens between storage calls, not inside one)",
@@ -47,9 +48,47 @@ def reg(p):
     return deco
 
 
+def spent_replay_matrix():
+    """Directed: every way a melt ends PAID (pay call success; pay call failed / errored but the immediate lookup says succeeded;
+    in flight, then a quote poll / a state check learns the success; ambiguous lookup then success; internal settlement), and
+    every way a swap ends, followed by every re-presentation of the consumed secrets: state check, swap, melt of another
+    quote, before and after a restart."""
+    hs = []
+    paths = {
+        "pay-success": ({"pay": ["success"]}, []),
+        "failed-then-succeeded": ({"pay": ["failed"], "status": ["succeeded"]}, []),
+        "error-then-succeeded": ({"pay": ["error"], "status": ["succeeded"]}, []),
+        "pending-poll": ({"pay": ["pending"]}, [{"op": "pollmelt", "q": "lq1", "status": ["succeeded"]}]),
+        "pending-statecheck": ({"pay": ["pending"]}, [{"op": "checkstate", "ys": ["b1"], "status": ["succeeded"]}]),
+        "error-pending-poll": ({"pay": ["error"], "status": ["pending"]}, [{"op": "pollmelt", "q": "lq1", "status": ["succeeded"]}]),
+        "error-error-poll": ({"pay": ["error"], "status": ["error"]}, [{"op": "pollmelt", "q": "lq1", "status": ["succeeded"]}]),
+    }
+    replays = [{"op": "checkstate", "ys": ["b1", "b2"]}, {"op": "swap", "ins": [{"p": "b1"}], "outs": [{"amt": 8}]},
+               {"op": "melt", "q": "lq2", "ins": [{"p": "b1"}], "pay": ["success"]},
+               {"op": "swap", "ins": [{"p": "b2"}, {"p": "b1"}], "outs": [{"amt": 8}, {"amt": 4}]},
+               {"op": "swap", "ins": [{"p": "b1", "var": "dleq"}], "outs": [{"amt": 8}]},
+               {"op": "swap", "ins": [{"p": "b1", "var": "amt:4"}], "outs": [{"amt": 4}]},
+               {"op": "swap", "ins": [{"p": "b2", "var": "nosign"}], "outs": [{"amt": 4}]},
+               {"op": "swap", "ins": [{"p": "b2", "var": "wit"}], "outs": [{"amt": 4}]}]
+    fund = [{"op": "mintquote", "amt": 13}, {"op": "settle", "q": "mq1"}, {"op": "mint", "q": "mq1", "outs": [{"amt": 8}, {"amt": 4, "lock": "K1"}, {"amt": 1}]}]
+    for name, (script, resolve) in paths.items():
+        ops = fund + [{"op": "meltquote", "kind": "ext", "amt": 6}, {"op": "meltquote", "kind": "ext", "amt": 5},
+                      dict({"op": "melt", "q": "lq1", "ins": [{"p": "b1"}]}, **script)] + resolve + replays + [{"op": "restart"}] + replays
+        hs.append({"fee": 0, "mpp": False, "policy": "min1", "probe": "passive", "ops": ops})
+    # internal settlement
+    ops = fund + [{"op": "mintquote", "amt": 7}, {"op": "meltquote", "kind": "int", "q": "mq2"}, {"op": "meltquote", "kind": "ext", "amt": 5},
+                  {"op": "melt", "q": "lq1", "ins": [{"p": "b1"}]}] + replays + [{"op": "restart"}] + replays
+    hs.append({"fee": 0, "mpp": False, "policy": "min1", "probe": "passive", "ops": ops})
+    # swap, incl. a locked input with its witness, then replays with and without the witness
+    ops = fund + [{"op": "swap", "ins": [{"p": "b1"}, {"p": "b2"}], "outs": [{"amt": 8}, {"amt": 4}]},
+                  {"op": "meltquote", "kind": "ext", "amt": 5}, {"op": "meltquote", "kind": "ext", "amt": 5}] + replays + [{"op": "restart"}] + replays
+    hs.append({"fee": 0, "mpp": False, "policy": "min1", "probe": "passive", "ops": ops})
+    return hs
+
+
 @reg("C01")
 def c01():
-    return merged("C01", {}, conc.c01_scenarios())
+    return merged("C01", {"extra_histories": spent_replay_matrix()}, conc.c01_scenarios())
 
 
 def own_invoice_matrix():
@@ -58,7 +97,7 @@ def own_invoice_matrix():
     hs = []
     for mpp in (True, False):
         for state in ("UNPAID", "PAID", "ISSUED"):
-            for kind in ("int", "mppint"):
+            for kind in ("int", "mppint", "forged"):
                 ops = [{"op": "mintquote", "amt": 13}, {"op": "settle", "q": "mq1"},
                        {"op": "mint", "q": "mq1", "outs": [{"amt": 8}, {"amt": 4}, {"amt": 1}]},
                        {"op": "mintquote", "amt": 5}]
@@ -73,6 +112,17 @@ def own_invoice_matrix():
                         {"op": "mint", "q": "mq2", "outs": [{"amt": 4}, {"amt": 1}]},
                         {"op": "balances"}]
                 hs.append({"fee": 0, "mpp": mpp, "policy": "min1", "probe": "all", "ops": ops})
+    # NUT-15 partial payments of outside invoices: every msat class (whole sats, just above, just below); the melt is attempted
+    # with 1, 2, 3, ... sats of inputs, so the first attempt the mint accepts burns exactly what it asks for and not more
+    for kind, ms in [("mpp", x) for x in (1000, 1001, 1500, 2999, 4001, 8000)] + [("ext", x) for x in (1001, 1500, 2999, 3000)]:
+        for pay in (["success"], ["pending"]):
+            ops = [{"op": "mintquote", "amt": 13}, {"op": "settle", "q": "mq1"},
+                   {"op": "mint", "q": "mq1", "outs": [{"amt": 1}] * 13},
+                   {"op": "meltquote", "kind": kind, "msat": ms, "amt": (ms + 999) // 1000}]
+            for k in range(1, (ms + 999) // 1000 + 3):
+                ops.append({"op": "melt", "q": "lq1", "ins": [{"p": "b%d" % i} for i in range(1, k + 1)], "pay": pay})
+            ops += [{"op": "pollmelt", "q": "lq1", "status": ["succeeded"]}, {"op": "balances"}]
+            hs.append({"fee": 0, "mpp": kind == "mpp", "policy": "min1", "probe": "passive", "ops": ops})
     return hs
 
 
@@ -86,7 +136,8 @@ def c02():
 @reg("C03")
 def c03():
     return merged("C03", dict(profile=["mintquote", "settle", "notify", "pollmint", "mint", "meltquote", "melt", "restart", "swap"],
-                              gen_overrides={"MaxMq": 5}), conc.c03_scenarios())
+                              gen_overrides={"MaxMq": 5}, mpp_set=(True, False), policy="min1",
+                              extra_histories=own_invoice_matrix()[:12]), conc.c03_scenarios())
 
 
 @reg("C04")
@@ -109,10 +160,38 @@ def c07():
     return crash.check("C07")
 
 
+def split_amounts(v):
+    return [{"amt": 1 << i} for i in range(v.bit_length()) if v >> i & 1]
+
+
+def rotation_fee_matrix():
+    """Directed: ecash on two keysets with different input_fee_ppk, spent together in one swap / melt, in both input orders, with
+    outputs worth exactly inputs minus the fee MintAPI computes (and one unit more, which must be refused)."""
+    hs = []
+    for f1, f2 in ((0, 1000), (1000, 0), (100, 2500), (999, 1), (2500, 2500)):
+        for order in (0, 1):
+            fee2 = (f1 + f2 + 999) // 1000
+            a, b = ("b1", "b4") if order == 0 else ("b4", "b1")
+            c, d = ("b2", "b5") if order == 0 else ("b5", "b2")
+            ops = [{"op": "mintquote", "amt": 13}, {"op": "settle", "q": "mq1"},
+                   {"op": "mint", "q": "mq1", "outs": [{"amt": 8}, {"amt": 4}, {"amt": 1}]},
+                   {"op": "rotate", "fee": f2},
+                   {"op": "mintquote", "amt": 12}, {"op": "settle", "q": "mq2"},
+                   {"op": "mint", "q": "mq2", "outs": [{"amt": 8}, {"amt": 4}]}, {"op": "keysets"},
+                   # one unit too many out: refused; then the exact amount: accepted
+                   {"op": "swap", "ins": [{"p": a}, {"p": b}], "outs": split_amounts(16 - fee2 + 1)},
+                   {"op": "swap", "ins": [{"p": a}, {"p": b}], "outs": split_amounts(16 - fee2)},
+                   {"op": "meltquote", "kind": "ext", "amt": 8 - fee2 - 1},
+                   {"op": "melt", "q": "lq1", "ins": [{"p": c}, {"p": d}], "pay": ["success"]},
+                   {"op": "restart"}, {"op": "keysets"}, {"op": "balances"}]
+            hs.append({"fee": f1, "mpp": False, "policy": "min1", "probe": "all", "ops": ops})
+    return hs
+
+
 @reg("C09")
 def c09():
     extra, v = cryptocheck.keyset_derivation("C09")
-    rc = minthist.check("C09", fees=(0, 100, 1000, 2500), extra_cov=extra)
+    rc = minthist.check("C09", fees=(0, 100, 1000, 2500), extra_cov=extra, extra_histories=rotation_fee_matrix())
     return 1 if (v or rc) else 0
 
 
@@ -141,9 +220,34 @@ def c14():
     return tables.check_tokens("C14")
 
 
+def witness_matrix():
+    """Directed: a P2PK-locked proof (with its witness) and a plain one, consumed by a swap and by a melt along every resolution
+    path (paid at once, in flight then paid through a quote poll / a state check, in flight then failed), with a state check and a
+    restore of every output after each step and after a restart."""
+    fund = [{"op": "mintquote", "amt": 13}, {"op": "settle", "q": "mq1"}, {"op": "mint", "q": "mq1", "outs": [{"amt": 8}, {"amt": 4, "lock": "K1"}, {"amt": 1}]}]
+    ys = ["b1", "b2", "b3", "unknown"]
+    look = [{"op": "checkstate", "ys": ys}, {"op": "restore", "bs": ["b1", "b2", "b3", "b4", "b5", "unknown"]}]
+    hs = []
+    paths = {
+        "swap": [{"op": "swap", "ins": [{"p": "b2"}, {"p": "b3"}], "outs": [{"amt": 4}, {"amt": 1}]}],
+        "melt-paid": [{"op": "meltquote", "kind": "ext", "amt": 3}, {"op": "melt", "q": "lq1", "ins": [{"p": "b2"}, {"p": "b3"}], "pay": ["success"]}],
+        "melt-pending-poll-paid": [{"op": "meltquote", "kind": "ext", "amt": 3}, {"op": "melt", "q": "lq1", "ins": [{"p": "b2"}, {"p": "b3"}], "pay": ["pending"]}] + look +
+                                  [{"op": "pollmelt", "q": "lq1", "status": ["pending"]}] + look + [{"op": "pollmelt", "q": "lq1", "status": ["succeeded"]}],
+        "melt-pending-check-paid": [{"op": "meltquote", "kind": "ext", "amt": 3}, {"op": "melt", "q": "lq1", "ins": [{"p": "b2"}, {"p": "b3"}], "pay": ["pending"]}] + look +
+                                   [{"op": "checkstate", "ys": ["b3", "b2"], "status": ["succeeded"]}],
+        "melt-pending-failed": [{"op": "meltquote", "kind": "ext", "amt": 3}, {"op": "melt", "q": "lq1", "ins": [{"p": "b2"}, {"p": "b3"}], "pay": ["pending"]}] + look +
+                               [{"op": "checkstate", "ys": ["b2"], "status": ["failed"]}] + look + [{"op": "swap", "ins": [{"p": "b2"}], "outs": [{"amt": 4}]}],
+        "melt-error-then-paid": [{"op": "meltquote", "kind": "ext", "amt": 3}, {"op": "melt", "q": "lq1", "ins": [{"p": "b2"}, {"p": "b3"}], "pay": ["error"], "status": ["pending"]}] + look +
+                                [{"op": "pollmelt", "q": "lq1", "status": ["succeeded"]}],
+    }
+    for name, ops in paths.items():
+        hs.append({"fee": 0, "mpp": False, "policy": "min1", "probe": "passive", "ops": fund + look + ops + look + [{"op": "restart"}] + look})
+    return hs
+
+
 @reg("C15")
 def c15():
-    return minthist.check("C15")
+    return minthist.check("C15", extra_histories=witness_matrix())
 
 
 def limit_overshoot():
@@ -187,7 +291,24 @@ def c08():
 
 @reg("C19")
 def c19():
-    return wallethist.check("C19", profile=["mint", "send", "receive", "melt", "checkmelt", "reclaim", "removespent", "rotate", "restore", "sendlocked"])
+    t0 = time.time()
+    cov, v1 = wallethist.check("C19", profile=["mint", "send", "receive", "melt", "checkmelt", "reclaim", "removespent", "rotate", "restore", "sendlocked"],
+                               collect=True)
+    cov2, v2 = wcrash.check("C19")
+    cm = wcrash.counter_model()
+    cov["design_model"] = cm
+    cov["states"] += cm["variants"]["code"]["distinct_states"]
+    cov["transitions"] += cm["variants"]["code"]["states_generated"]
+    for k in ("states", "transitions", "traces_validated_against_impl", "evaluations", "distinct_nontrivial"):
+        cov[k] = cov[k] + cov2[k]
+    cov["known_findings_seen"] = cov["known_findings_seen"] + cov2["known_findings_seen"]
+    cov["wallet_crash_enumeration"] = {k: cov2[k] for k in ("crash_scenarios", "crash_executions", "crash_rule", "events_by_kind", "operations_ok",
+                                                              "operations_failed", "tags_of_other_properties")}
+    write_evidence("C19", "model_checking", cov, time.time() - t0, v1 + v2,
+                   ["honest mints (the real mint code) and the Lightning model", "the harness's NUT-13 table (repository derivation, identification only) "
+                    "recognises the wallets' deterministic outputs for counters below 160 per keyset (700 in long histories)",
+                    "a killed wallet process is a goroutine frozen before a storage write / HTTP request / HTTP reply; bbolt's own crash atomicity is assumed"])
+    return 1 if (v1 + v2) else 0
 
 
 @reg("C18")
@@ -211,7 +332,18 @@ def c18():
 
 @reg("C20")
 def c20():
-    return minthist.check("C20", http=True, malformed=3, probe="all", num=70 if tier() == "quick" else 1500)
+    t0 = time.time()
+    cov, v1 = minthist.check("C20", http=True, malformed=3, probe="all", num=70 if tier() == "quick" else 1500, collect=True)
+    cov2, v2 = crash.fault_http("C20")
+    cov["fault_reporting"] = cov2
+    cov["evaluations"] += cov2["events"]
+    cov["states"] += cov2["tlc_states"]
+    cov["traces_validated_against_impl"] += cov2["fault_executions"]
+    cov["known_findings_seen"] = cov["known_findings_seen"] + cov2["known_findings_seen"]
+    write_evidence("C20", "model_checking", cov, time.time() - t0, v1 + v2,
+                   ["SQLite gives per-call atomicity; the Lightning model stands in for LND/CLN",
+                    "'internal detail' is recognised by the marker text carried by every error the harness injects into storage and Lightning calls"])
+    return 1 if (v1 + v2) else 0
 
 
 def replay(prop, path):
